@@ -61,7 +61,11 @@ class SetDistance(Functional):
             Euclidean distance from `x` to the projection of `x`.
         """
         y = self.proj(*((x,) + self.args))
-        return snp.linalg.norm(x - y)
+        # The derivative of sqrt is infinite at 0: select the value 0 there without evaluating
+        # sqrt, so that the gradient is zero (rather than NaN) at points of the set.
+        dsq = snp.sum(snp.abs(x - y) ** 2)
+        nz = dsq > 0
+        return snp.where(nz, snp.sqrt(snp.where(nz, dsq, 1.0)), 0.0)
 
     def prox(
         self, v: Union[Array, BlockArray], lam: float = 1.0, **kwargs
@@ -133,7 +137,9 @@ class SquaredSetDistance(Functional):
             Squared :math:`\ell_2` distance from `x` to the projection of `x`.
         """
         y = self.proj(*((x,) + self.args))
-        return 0.5 * snp.linalg.norm(x - y) ** 2
+        # Directly implement the squared l2 norm to avoid the NaN gradient of snp.linalg.norm
+        # at 0, i.e. at all points of the set.
+        return 0.5 * snp.sum(snp.abs(x - y) ** 2)
 
     def prox(
         self, v: Union[Array, BlockArray], lam: float = 1.0, **kwargs
